@@ -31,7 +31,8 @@ FLOORS = {'aggregate_evaluations': 3000, 'two_dimensional': 200,
           'split_relations': 100, 'permutation_relations': 100,
           'order_relations': 100, 'sumproduct_cases': 100,
           'same_cells_twice': 300, 'library_calls_monitored': 100,
-          'absolute_rectangles': 100, 'big_rectangles': 6}
+          'absolute_rectangles': 100, 'big_rectangles': 6,
+          'big_integer_cases': 50}
 ANCHOR_FUNCS = {
     'xlcalculator/xlfunctions/math.py': ['SUM', 'SUMPRODUCT'],
     'xlcalculator/xlfunctions/statistics.py': ['AVERAGE', 'MIN', 'MAX',
@@ -295,6 +296,39 @@ def run(ctx):
         ctx.event('big_rectangles')
         B.flush(judge)
     RECT_FLAGS[0] = F4
+
+    # ---- whole numbers next to each other beyond 2^53 (cell values hold them
+    # exactly): the extremes are told apart, in every arrangement ----------------
+    if ctx.shard in (0, 1, 2) or thorough:
+        for base in (2 ** 53, 10 ** 17, -2 ** 53 - 8):
+            offs = rng.sample(range(0, 6), 4)
+            for arrangement in range(3):
+                rng.shuffle(offs)
+                cells_ = {f'A{i + 1}': base + o for i, o in enumerate(offs)}
+                hi = max(offs)
+                lo = min(offs)
+                probes = {
+                    '=MAX(A1:A4)-MIN(A1:A4)': ('num', float(hi - lo)),
+                    f'=MAX(A1:A4)=A{offs.index(hi) + 1}': ('bool', True),
+                    f'=MIN(A1:A4)=A{offs.index(lo) + 1}': ('bool', True),
+                    f'=MAX(A1:A4)-A{offs.index(lo) + 1}':
+                        ('num', float(hi - lo)),
+                    f'=MAX(A1,A2,A3,A4)-MIN(A4,A3,A2,A1)':
+                        ('num', float(hi - lo)),
+                    '=COUNT(A1:A4)': ('num', 4.0),
+                }
+                outs = subject.eval_batch(list(probes), cells_)
+                for (text, want), got in zip(probes.items(), outs):
+                    ctx.event('aggregate_evaluations')
+                    ctx.event('big_integer_cases')
+                    ctx.case(('big-int', base, text[:12], arrangement))
+                    if got != ('value', want):
+                        ctx.fail(f'{text} over {cells_}: observed {got}, '
+                                 f'reference {want}',
+                                 {'formula': text, 'cells': cells_,
+                                  'observed': got, 'reference': want},
+                                 monitor='reference-fold',
+                                 group=f'big-int:{text[:8]}')
 
     # ---- several arguments: ranges + numeric scalars, every order -----------
     for _ in range((3000 if thorough else 200) // ctx.nshards):
